@@ -31,6 +31,7 @@ func runC06(r *Report, p *Program) {
 	c06R4(h)
 	c06R5(h)
 	c06R6(h)
+	c06R7(h)
 }
 
 func c06R1(h H) {
